@@ -37,7 +37,7 @@ def showState (s : State) : String :=
 
 def parseRole0 (s : String) : Option (Role × Nat) :=
   if s = "wca" ∨ s = "wwa" ∨ s = "wda" then some (.writer true, 0) else if s = "wcr" then some (.writer true, 1)
-  else if s = "wxa" then some (.writer false, 0) else if s = "rdw" then some (.reader, 2)
+  else if s = "wxa" then some (.writer false, 0) else if s = "rdw" ∨ s = "rdd" then some (.reader, 2)
   else if s = "wra" then some (.writer false, 0) else if s = "wcn" then some (.writer false, 2)
   else if s = "wcR" then some (.writer true, 3) else if s = "wrR" then some (.writer false, 3)
   else if s = "rd" then some (.reader, 2) else none
